@@ -368,8 +368,13 @@ class ManifestContext:
                 continue
             assert mf.content_type == 'video'
             assert mf.representation.content_type == 'video'
+            if (
+                    video.representations and
+                    video.representations[0].track_id != mf.representation.track_id):
+                raise ManifestNotAvailable(
+                    f'video files {video.representations[0].id} and {mf.name} of stream ' +
+                    f'{stream.directory} have different track IDs')
             video.representations.append(mf.representation)
-            assert video.representations[0].track_id == mf.representation.track_id
         video.compute_av_values()
         assert isinstance(video.representations, list)
         return video
